@@ -128,6 +128,7 @@ func lookupMethod(i *interpreter, typ types.Type, meth *types.Func) *ssa.Functio
 func visitInstr(fr *frame, instr ssa.Instruction) continuation {
 	p := fr.i.p
 	p.steps++
+	p.curInstr = instr
 	if p.steps > p.stepBudget {
 		panic(pathAbort{kind: "budget", msg: "step budget exceeded (possible non-termination)", pos: fr.i.prog.Fset.Position(instr.Pos()).String(), fn: fr.fn.String()})
 	}
@@ -328,15 +329,16 @@ func visitInstr(fr *frame, instr ssa.Instruction) continuation {
 		m := fr.get(instr.Map)
 		key := fr.get(instr.Key)
 		v := fr.get(instr.Value)
-		if isSym(key) {
-			panic(unsupported("symbolic map key"))
-		}
 		switch m := m.(type) {
 		case map[value]value:
 			if m == nil {
 				panic(runtimeError("assignment to entry in nil map"))
 			}
-			m[key] = v
+			if k, found := mapFindKey(m, key); found {
+				m[k] = v
+			} else {
+				m[key] = v
+			}
 		case *hashmap:
 			if m == nil {
 				panic(runtimeError("assignment to entry in nil map"))
@@ -432,7 +434,7 @@ func callSSA(i *interpreter, caller *frame, callpos token.Pos, fn *ssa.Function,
 	}
 	fr := &frame{i: i, caller: caller, fn: fn, callpos: callpos}
 	if caller != nil && fn.Synthetic == "package initializer" {
-		i.ensureInit(fn.Pkg)
+		// dependency initialisers are run lazily, on first touch of the package (ensureInit)
 		return nil
 	}
 	if ext := findExternal(fn); ext != nil {
@@ -492,13 +494,20 @@ func runFrame(fr *frame) {
 		if fr.i.mode&EnableTracing != 0 {
 			fmt.Fprintf(os.Stderr, "Panicking in %s: %v\n", fr.fn, panicText(r))
 		}
-		if _, ok := r.(targetPanic); !ok {
-			if _, ok := r.(runtimeError); !ok {
-				// interpreter-level failure: remember where
-				if fr.i.p.internalAt == "" {
-					fr.i.p.internalAt = fr.fn.String()
+		if fr.i.p.internalAt == "" || fr.i.p.lastPanic != r2s(r) {
+			// remember where the panic originated (innermost frame sees it first)
+			fr.i.p.lastPanic = r2s(r)
+			st := ""
+			for f, n := fr, 0; f != nil && n < 6; f, n = f.caller, n+1 {
+				pos := ""
+				if n == 0 && fr.i.p.curInstr != nil {
+					pos = posString(fr.i.prog.Fset, fr.i.p.curInstr.Pos())
+				} else if f != fr {
+					pos = ""
 				}
+				st += f.fn.String() + " " + pos + " <- "
 			}
+			fr.i.p.internalAt = st
 		}
 		fr.panicking = true
 		fr.panic = r
@@ -623,3 +632,5 @@ func initAllowed(path string) bool {
 	}
 	return false
 }
+
+func r2s(r interface{}) string { return fmt.Sprintf("%T:%v", r, panicText(r)) }
